@@ -146,8 +146,12 @@ def cases(rng, tier):
     arity = [("(1, 2, 3)", "(1, 2, 3)", True), ("(1, 2, 3)", "(1, 2)", False), ("(1, 2, 3)", "(1, 2, 3, 4)", False),
              ("(1, 2, 3)", "(1, 2, _)", True), ("(1, 2, 3)", "(0: 1, 1: 2)", False), ("(1, 2)", "(_, _, _)", False),
              ("(1, 2)", "()", False),
-             # one written element is lowered to a parenthesised pattern, as in Rust itself (`let (x) = v;`): no arity is imposed (O16)
-             ("5", "(5)", True), ("(1, 2, 3)", "(_)", True), ("(1, 2, 3)", "(5)", False),
+             # one written element is a ONE-tuple pattern (`( x , )` in the expansion; before fix F19 it was lowered to the parenthesised
+             # pattern `( x )`, which imposes no shape at all: `(5,)` passed on a bare 5 and was rejected on (5,))
+             ("5", "(5)", False), ("5", "(5,)", False), ("(1, 2, 3)", "(_)", False), ("(1, 2, 3)", "(_,)", False), ("(1, 2, 3)", "(5)", False),
+             ("(5,)", "(5,)", True), ("(5,)", "(5)", True), ("(5,)", "(_,)", True), ("(5,)", "(0: 5)", True), ("(5,)", "(_, _)", False), ("(5,)", "()", False),
+             ("Some((5,))", "Some((5,))", True), ("Some(5)", "Some((5,))", False), ("Some(5)", "Some((_,))", False), ("vec![(5,)]", "[(5,)]", True),
+             ("vec![5]", "[(_,)]", False), ("((5,), 1)", "((_,), 1)", True), ("(5, 1)", "((_,), 1)", False),
              ("E::P2(1, 2)", "E::P2(1, 2)", True), ("E::P2(1, 2)", "E::P2(1)", False), ("E::P2(1, 2)", "E::P2(1, 2, 3)", False),
              ("E::P3(1, 2, 3)", "E::P3(1, 2)", False), ("E::P3(1, 2, 3)", "E::P3(_, _, _)", True), ("E::P1(1)", "E::P1()", False),
              ("E::P1(1)", "E::P1(1, _)", False), ("E::P0", "E::P0", True), ("E::P2(1, 2)", "F::P2(1, 2)", False),
